@@ -167,9 +167,11 @@ def run_property(prop, tier='quick', seed=0, replay=None):
     try:
         run.build()
         run.generate()
-        if not run.ctx.obligations:
+        if not run.ctx.obligations and not getattr(run.mod, 'ALLOW_NO_SMT', False):
             raise VCError('zero obligations generated')
         run.discharge()
+        if getattr(run.mod, 'ALLOW_NO_SMT', False) and not run.static:
+            raise VCError('zero obligations generated (not even static scans)')
         if not os.environ.get('VERIF_NO_CONCRETE'):
             run.crosscheck()
         if hasattr(run.mod, 'bounded_checks') and (tier == 'thorough' or getattr(run.mod, 'BOUNDED_IN_QUICK', False)):
